@@ -112,16 +112,17 @@ pub fn universe(out: &mut crate::Out, tag: &str, seed: u64, fee_mult: u128, maxl
     };
     let ss = mk(&d, vec![coin(&s_, 0), coin(&s_, 1)], vec![mk_coin(t, 5 * v, Denom::Sym, &[]), mk_coin(t, 0, Denom::Mel, &[])], 1, 0, TxKind::Normal, vec![14]);
     let sc = mk(&d, vec![coin(&s_, 1)], vec![mk_coin(t, 0, Denom::Mel, &[])], 0, 0, TxKind::Normal, vec![15]); // spends only the change of the stake
+    let f1s = { let mut x = f1.clone(); x.sigs.push(vec![7u8; 4].into()); x };   // the same faucet, other bytes in its signature field
     let names: Vec<(&str, Transaction)> = vec![
-        ("F1", f1.clone()), ("A", a), ("B", b), ("C", c), ("D", dd), ("E", e), ("G", g), ("G2", g2), ("N", n), ("X", x), ("I", i_), ("J", j_), ("K", k_), ("L", l_), ("L2", l2),
+        ("F1", f1.clone()), ("F1s", f1s), ("A", a), ("B", b), ("C", c), ("D", dd), ("E", e), ("G", g), ("G2", g2), ("N", n), ("X", x), ("I", i_), ("J", j_), ("K", k_), ("L", l_), ("L2", l2),
         ("M", m_), ("M2", m2), ("P", p_), ("Q", q_), ("S", s_), ("SS", ss), ("SC", sc),
     ];
     // states to enumerate from: before F1; after F1; after F1 + A; after F1 + A + S sealed (stake in the state, next block)
     let mut bases: Vec<(usize, &str)> = vec![(d.cur, "genesis")];
     d.apply(&[f1.clone()], 0, json!({"why": "universe: F1"}));
     bases.push((d.cur, "after F1"));
-    let a_tx = names[1].1.clone();
-    let s_tx = names[19].1.clone();
+    let a_tx = names[2].1.clone();
+    let s_tx = names[20].1.clone();
     let saved = d.cur;
     d.apply(&[a_tx], 0, json!({"why": "universe: A"}));
     bases.push((d.cur, "after F1, A"));
